@@ -267,7 +267,8 @@ def is_bad(r):
 # ---------------------------------------------------------------- evidence
 
 def write_evidence(pid, ev):
-    d = os.path.join(VERIF, "evidence")
+    # development runs (proof side skipped) never overwrite the evidence that is committed
+    d = os.path.join(BUILD, "dev-evidence") if os.environ.get("VERIF_SKIP_PROOF") else os.path.join(VERIF, "evidence")
     os.makedirs(d, exist_ok=True)
     with open(os.path.join(d, pid + ".json"), "w") as f:
         json.dump(ev, f, indent=1, ensure_ascii=False, sort_keys=True)
